@@ -107,3 +107,19 @@ package boltz
 //@   modifies *
 //@   ensures[near-and-far-symbol] result != nil && istype(result, *rcLinkCollectionImpl) && as(result, *rcLinkCollectionImpl).field == local && as(result, *rcLinkCollectionImpl).otherField != nil && as(result, *rcLinkCollectionImpl).otherField.EntitySymbol == remote
 //@   ensures[registered-for-cleanup] has(store.refCountedLinks, esName(local)) && store.refCountedLinks[esName(local)] == result
+// a store's child-store strategies are registered while the stores are set up
+//@ immutable H.boltz.BaseStore.childStoreStrategies.len
+//@ immutable H.boltz.BaseStore.childStoreStrategies.nil
+//@ immutable H.boltz.BaseStore.childStoreStrategies.arr.typ
+//@ immutable H.boltz.BaseStore.childStoreStrategies.arr.val
+//@ immutable H.boltz.BaseStore.impl.typ
+//@ immutable H.boltz.BaseStore.impl.val
+// DeleteEntity: the entity's bucket (and with it everything stored below it) is removed from the entities bucket
+//@ func (*TypedBucket).DeleteEntity
+//@   props C06 C07
+//@   nosafety
+//@   assume bucket.ErrorHolderImpl != nil && bucket.Bucket != nil
+//@   modifies bucket.Err, bktHas[bucket.Bucket], bktSub[bucket.Bucket]
+//@   ensures[pending-error-does-nothing] old(bucket.Err) != nil ==> bucket.Err == old(bucket.Err) && bktHas[bucket.Bucket] == old(bktHas[bucket.Bucket]) && bktSub[bucket.Bucket] == old(bktSub[bucket.Bucket])
+//@   ensures[the-entity's-bucket-is-gone] old(bucket.Err) == nil && bucket.Err == nil ==> bktHas[bucket.Bucket] == sto(old(bktHas[bucket.Bucket]), id, false) && bktSub[bucket.Bucket] == sto(old(bktSub[bucket.Bucket]), id, 0)
+//@   ensures[failure-keeps-the-bucket] old(bucket.Err) == nil && bucket.Err != nil ==> bktHas[bucket.Bucket] == old(bktHas[bucket.Bucket]) && bktSub[bucket.Bucket] == old(bktSub[bucket.Bucket])
